@@ -152,6 +152,7 @@ def initial_tableau(case):
                 base = tr.cnot_gate(base, q, t)
             else:
                 base = G1[g](base, q)
+        case["_base_rows"] = gq.tableau_rows(base)
         return CliffordTableau(np.array(base.table), phase=np.array(base.phase))
     import networkx as nx
     from graphiq.backends.stabilizer.functions.rep_conversion import get_clifford_tableau_from_graph
@@ -282,6 +283,24 @@ def run_case(case):
     except Exception as e:
         ctx.probe("init_constructor_raised")
         return ctx.result(False, sample={"skipped": repr(e)})
+    base_rows = case.pop("_base_rows", None)
+    if base_rows is not None:
+        # construction from raw arrays is an API call of its own: CliffordTableau(table, phase) must describe the state
+        # given by those arrays (the arrays come from a tableau whose rows the reference accepts)
+        xs, zs, ss, ips0 = base_rows
+        want = chp.from_bit_rows(case["n"], xs, zs, ss)
+        if not any(ips0) and want.is_valid():
+            bad = v1_v2(tab)
+            got, ips = import_ref(tab)
+            ok_state = False
+            if not bad and not any(ips):
+                try:
+                    ok_state = got.canon() == want.canon()
+                except ArithmeticError:
+                    ok_state = False
+            if bad or any(ips) or not ok_state:
+                ctx.violate("V5_constructor_from_arrays", -1, f"CliffordTableau(table, phase) does not describe the given stabilizers/signs: {bad or ('iphase of stabilizer rows ' + str(ips) if any(ips) else 'different stabilizer group')}", {"op": "constructor"})
+                return ctx.result(False, sample={"n": case["n"], "init": case["init"]})
     bad = v1_v2(tab)
     if bad:
         ctx.probe("init_tableau_invalid")
